@@ -20,7 +20,7 @@ def layout_classes(ctx):
     g = lambda n: ctx.fold.get('config.layouts', n)
     names = {k: g(k) for k in ('TRS_DESC', 'DESC_STR', 'S_DESC_TR', 'TR_DESC_S', 'COPY_ALL')}
     impl = g('_IMPLEMENTED_LAYOUTS')
-    if set(impl) != set(names.values()) or len(impl) != 5:
+    if not set(names.values()) <= set(impl) or len(impl) != len(set(impl)):
         missing = sorted(set(names.values()) - set(impl))
         ctx.violation('TBL', 'every layout constant is in _IMPLEMENTED_LAYOUTS (the table the config reader validates against)',
                       f"_IMPLEMENTED_LAYOUTS = {tuple(impl)}: {missing or 'duplicates / unknown entries'} "
